@@ -63,6 +63,8 @@ func DefaultConfig(seed uint64) Config {
 	}
 }
 
+const fairLimit = 64
+
 type taskState int
 
 const (
@@ -143,6 +145,9 @@ type Sim struct {
 	fs        *fsState
 	stats     map[string]int64
 	aborted   bool
+	lastPick  *Task
+	consec    int
+	rr        int
 	pending   map[uintptr][]*pendSend
 	abortSelf *Task
 	// Decisions counts how often the scheduler had >1 candidates.
@@ -551,7 +556,7 @@ func (s *Sim) pick(self *Task) *Task {
 	s.steps++
 	s.lastBeat.Store(s.steps)
 	if s.steps > s.cfg.MaxSteps {
-		s.event("STEP-LIMIT")
+		s.event("STEP-LIMIT\n%s", DumpTasks())
 		s.outcome = "step-limit"
 		return nil
 	}
@@ -611,6 +616,29 @@ func (s *Sim) choose(self *Task, cands []*Task) *Task {
 		return cands[0]
 	}
 	s.Decisions++
+	// Fairness bound: no real scheduler lets one goroutine run for ever while
+	// others are runnable. After fairLimit consecutive yields that kept the
+	// same task, it is excluded once (round-robin to the next id).
+	if self != nil && self.state == stRunnable {
+		if s.lastPick == self {
+			s.consec++
+		} else {
+			s.lastPick, s.consec = self, 0
+		}
+		if s.consec >= fairLimit {
+			s.consec = 0
+			var rest []*Task
+			for _, c := range cands {
+				if c != self {
+					rest = append(rest, c)
+				}
+			}
+			s.rr++
+			return rest[s.rr%len(rest)]
+		}
+	} else {
+		s.lastPick, s.consec = nil, 0
+	}
 	switch s.cfg.Policy {
 	case PolicyFIFO:
 		if self != nil && self.state == stRunnable {
